@@ -215,7 +215,9 @@ CancelOrder(cfg, w, o) ==
     LET payDid == IF o.paydid # "" THEN o.paydid ELSE o.owner IN
     IF ~Good(w) THEN w
     ELSE IF ~HasPay(w, payDid) THEN Fail(w, "refund order failed")
-    ELSE DelOrder(RollbackMeta(cfg, Send(w, "m_order", PayOf(w, payDid), o.amount), o.data), o.id)
+    ELSE LET w1 == Send(w, "m_order", PayOf(w, payDid), o.amount)
+             w2 == IF HasMeta(w1, o.data) /\ MetaOf(w1, o.data).order = o.id THEN RollbackMeta(cfg, w1, o.data) ELSE w1
+         IN DelOrder(w2, o.id)
 
 \* model/keeper UpdateMeta(order) at order completion (op 1 / 2) or renewal (op 3)
 AuthorisedFor(m, did) == m.owner = did \/ InSeq(did, m.rw)
